@@ -58,8 +58,13 @@ Header(cs) ==
   /\ UNCHANGED <<gtail, mstarts, errs>>
 
 SigField(k) == CASE k = "clef" -> "clef" [] k = "keysig" -> "key" [] k = "timesig" -> "time" [] k = "meter" -> "meter"
+\* An exclusive interpretation (**type) inside a later line - the line that follows an add-spine operator '*+' names the new
+\* spine - starts a spine of its own: the node hangs under the global-comment chain like the header line's nodes, is its own
+\* header (spine id = its column) and inherits nothing from the cell above it.
 MkNode(i, c) ==
   LET p == At(live[i]) IN
+  IF c.k = "hdr" THEN [par |-> gtail, hdr |-> <<NS, i>>, cell |-> c, sig |-> NoSig, lastop |-> NoPtr]
+  ELSE
   [par |-> live[i], hdr |-> p.hdr, cell |-> c,
    sig |-> IF c.k \in SigClasses THEN [p.sig EXCEPT ![SigField(c.k)] = <<NS, i>>] ELSE p.sig,
    lastop |-> IF p.cell.k \in OpClasses THEN live[i] ELSE p.lastop]
@@ -70,7 +75,7 @@ JoinRunStart(cs, i) == i = 1 \/ cs[i - 1].k # "join" \/ At(live[i - 1]).hdr # At
 RECURSIVE NextLiveFrom(_, _)
 NextLiveFrom(cs, i) ==
   IF i > Len(cs) THEN <<>>
-  ELSE (CASE cs[i].k = "split" -> << <<NS, i>>, <<NS, i>> >>
+  ELSE (CASE cs[i].k \in TwiceClasses -> << <<NS, i>>, <<NS, i>> >>
           [] cs[i].k = "term"  -> <<>>
           [] cs[i].k = "join"  -> (IF JoinRunStart(cs, i) THEN << <<NS, i>> >> ELSE <<>>)
           [] OTHER -> << <<NS, i>> >>) \o NextLiveFrom(cs, i + 1)
@@ -90,6 +95,7 @@ RowErrs(cs) == LET bad == SelectSeq([i \in 1..Len(cs) |-> i],
 
 Row(cs) ==
   /\ status = "body" /\ Len(cs) = Len(live) /\ Len(cs) > 0
+  /\ \A i \in 1..Len(cs) : cs[i].k # "exch"
   /\ stages' = Append(stages, [i \in 1..Len(cs) |-> MkNode(i, cs[i])])
   /\ live' = NextLive(cs)
   /\ mstarts' = IF MeasureRow(cs) THEN Append(mstarts, NS) ELSE mstarts
@@ -104,9 +110,25 @@ Surplus(cs) ==
   /\ status' = "rejected"
   /\ UNCHANGED <<stages, live, gtail, mstarts, lineno, errs>>
 
+\* a line with a spine-exchange operator '*x': legal Humdrum, but not supported - the implementation raises
+Unsupported(cs) ==
+  /\ status = "body" /\ Len(cs) = Len(live) /\ \E i \in 1..Len(cs) : cs[i].k = "exch"
+  /\ status' = "rejected"
+  /\ UNCHANGED <<stages, live, gtail, mstarts, lineno, errs>>
+
+\* after every spine was terminated a new header line starts a new section (its nodes hang under the comment chain again,
+\* spine ids start again at 0); Document.header_stage then names the LAST header line
+Reopen(cs) ==
+  /\ status = "closed" /\ Len(cs) > 0
+  /\ stages' = Append(stages, [i \in 1..Len(cs) |->
+                  [par |-> gtail, hdr |-> <<NS, i>>, cell |-> cs[i], sig |-> NoSig, lastop |-> NoPtr]])
+  /\ live' = [i \in 1..Len(cs) |-> <<NS, i>>]
+  /\ status' = "body" /\ lineno' = lineno + 1
+  /\ UNCHANGED <<gtail, mstarts, errs>>
+
 (* ------------------ what the tree must mean (C02 invariants) ------------ *)
 IsGlobalStage(s) == s > 1 /\ Len(stages[s]) = 1 /\ stages[s][1].cell.k = "gcom"
-IsHeaderStage(s) == s > 1 /\ stages[s][1].cell.k = "hdr"
+IsHeaderStage(s) == s > 1 /\ \A i \in 1..Len(stages[s]) : stages[s][i].cell.k = "hdr"
 IsSpineStage(s) == s > 1 /\ ~IsGlobalStage(s) /\ ~IsHeaderStage(s)
 \* the previous spine-or-header stage before s
 RECURSIVE PrevSpineStage(_)
@@ -117,7 +139,7 @@ RECURSIVE ContFrom(_, _)
 ContFrom(s, i) ==
   IF i > Len(stages[s]) THEN <<>>
   ELSE LET k == stages[s][i].cell.k IN
-       (CASE k = "split" -> <<i, i>>
+       (CASE k \in TwiceClasses -> <<i, i>>
           [] k = "term"  -> <<>>
           [] k = "join"  -> (IF i > 1 /\ stages[s][i - 1].cell.k = "join" /\ stages[s][i - 1].hdr = stages[s][i].hdr
                              THEN <<>> ELSE <<i>>)
@@ -127,12 +149,13 @@ ParentOnSamePath ==
   \A s \in 2..Len(stages) : IsSpineStage(s) =>
      LET ps == PrevSpineStage(s)  cont == ContFrom(ps, 1) IN
      /\ Len(stages[s]) = Len(cont)
-     /\ \A i \in 1..Len(stages[s]) : stages[s][i].par = <<ps, cont[i]>>
+     /\ \A i \in 1..Len(stages[s]) : IF stages[s][i].cell.k = "hdr" THEN At(stages[s][i].par).hdr = NoPtr     \* a new spine: under the comment chain
+                                       ELSE stages[s][i].par = <<ps, cont[i]>>
 HeaderIdentity ==
   \A s \in 2..Len(stages) : \A i \in 1..Len(stages[s]) :
      LET n == stages[s][i] IN
      IF IsGlobalStage(s) THEN n.hdr = NoPtr
-     ELSE IF IsHeaderStage(s) THEN n.hdr = <<s, i>>
+     ELSE IF IsHeaderStage(s) \/ n.cell.k = "hdr" THEN n.hdr = <<s, i>>
      ELSE n.hdr = At(n.par).hdr /\ At(n.hdr).cell.k = "hdr"
 CommentChain ==
   LET gs == SelectSeq([s \in 1..Len(stages) |-> s], IsGlobalStage) IN
@@ -166,5 +189,15 @@ GoverningSigOK ==
      LET n == stages[s][i] IN
      IsSpineStage(s) => /\ n.sig.clef = NearestOfClass(<<s, i>>, "clef") /\ n.sig.key = NearestOfClass(<<s, i>>, "keysig")
                         /\ n.sig.time = NearestOfClass(<<s, i>>, "timesig") /\ n.sig.meter = NearestOfClass(<<s, i>>, "meter")
+\* Importer state the excerpt exporter reads: every spine-operator token remembers the (0-based) stage at which the LAST join or
+\* terminator below it, with no other operator in between on that path, was read (SpineOperationToken.cancelled_at_stage; 0 = never)
+CancelledAt(ptr) == LET ss == {s \in 2..Len(stages) : \E i \in 1..Len(stages[s]) :
+                                    stages[s][i].cell.k \in {"join", "term"} /\ stages[s][i].lastop = ptr} IN
+                    IF ss = {} THEN 0 ELSE Max(ss) - 1
+OpPtrs == LET ptrs == [s \in 1..Len(stages) |-> SelectSeq([i \in 1..Len(stages[s]) |-> <<s, i>>],
+                                                            LAMBDA q : s > 1 /\ stages[q[1]][q[2]].cell.k \in OpClasses /\ stages[q[1]][q[2]].hdr # NoPtr)]
+          IN Flat(ptrs)
+CancelList == LET ps == OpPtrs IN [j \in 1..Len(ps) |-> <<ps[j][1], ps[j][2], CancelledAt(ps[j])>>]
+LastHeaderStage == LET hs == {s \in 2..Len(stages) : \E i \in 1..Len(stages[s]) : stages[s][i].cell.k = "hdr"} IN IF hs = {} THEN 0 ELSE Max(hs) - 1
 ClosedMeansNoLive == (status = "closed") <=> (status # "pre" /\ status # "rejected" /\ live = <<>>)
 =============================================================================
